@@ -1989,20 +1989,14 @@ class ForallFormula(QuantifiedFormula):
         elif isinstance(new_in_variable, DerivationTree):
             new_in_variable = new_in_variable.substitute(subst_map)
 
-        new_inner_formula = self.inner_formula.substitute_expressions(subst_map)
-
-        if new_inner_formula == true():
-            # NOTE: A universal formula whose inner formula does not mention the bound
-            #       variable is *not* equivalent to that inner formula: it holds
-            #       vacuously if there is no element to quantify over (and, with a bind
-            #       expression, if no element has the defined expansion). The quantifier
-            #       can only be removed if the inner formula holds anyway.
-            return new_inner_formula
-
+        # NOTE: A universal formula whose inner formula does not mention the bound
+        #       variable is *not* equivalent to that inner formula: it holds vacuously
+        #       if there is no element to quantify over (and, with a bind expression,
+        #       if no element has the defined expansion). We thus keep the quantifier.
         return ForallFormula(
             self.bound_variable,
             new_in_variable,
-            new_inner_formula,
+            self.inner_formula.substitute_expressions(subst_map),
             self.bind_expression,
             self.already_matched,
             id=self.id,
